@@ -172,6 +172,60 @@ func c08Tables(c *Ctx) {
 			}
 			t2[g] = e
 		}
+		if _, done := t2[g]; !done {
+			// one-level summary: the case delegates to a same-package constructor
+			for _, in := range b.Instrs {
+				cl, ok := in.(*ssa.Call)
+				if !ok {
+					continue
+				}
+				cal := cl.Call.StaticCallee()
+				if cal == nil || an.PkgPathOf(cal) != core.ModPath || len(cal.Blocks) == 0 || len(cal.Params) != 1 {
+					continue
+				}
+				if ci.val == nil || !an.DependsOn(cl.Call.Args[0], func(v ssa.Value) bool { return v == ci.val }) {
+					continue
+				}
+				for _, cb := range cal.Blocks {
+					for _, cin := range cb.Instrs {
+						al, ok := cin.(*ssa.Alloc)
+						if !ok {
+							continue
+						}
+						nt := an.NamedOf(al.Type().Underlying().(*types.Pointer).Elem())
+						if nt == nil || nt.Obj().Name() != "SQLiteValue" {
+							continue
+						}
+						e := pf{p: protoNames[0], f: ""}
+						for _, r := range *al.Referrers() {
+							fa, ok := r.(*ssa.FieldAddr)
+							if !ok {
+								continue
+							}
+							fv := an.FieldVar(fa.X.Type(), fa.Field)
+							for _, rr := range *fa.Referrers() {
+								st, ok := rr.(*ssa.Store)
+								if !ok || st.Addr != ssa.Value(fa) {
+									continue
+								}
+								if fv == typeField {
+									if k, ok := st.Val.(*ssa.Const); ok {
+										e.p = protoNames[k.Int64()]
+									}
+								} else if fv.Exported() {
+									if an.DependsOn(st.Val, func(v ssa.Value) bool { return v == ssa.Value(cal.Params[0]) }) {
+										e.f = fv.Name()
+									} else {
+										e.f = "?" + fv.Name()
+									}
+								}
+							}
+						}
+						t2[g] = e
+					}
+				}
+			}
+		}
 	}
 	// T3/T4: proto type -> field read (FromSQLiteValue, Key.Value)
 	readTable := func(fn *ssa.Function) map[string]string {
